@@ -32,7 +32,7 @@ CHECKS = {
          "All 874 rooted shapes on 1..7 nodes and random trees to 12 nodes x every new root; all digraphs on <= 4 nodes, every DAG shape on 5-6 nodes (all 2^20 digraphs on 5 nodes in thorough); histories mixing addSon/setFather/removeSon/deleteNode/rootAt/unRoot with isValid/isRooted; father/sons/branches/leaves-under/subtree/paths/MRCA against the reference, edge ids and attached objects preserved by re-rooting and by setFather/addSon with an edge object; plain and observer layers.",
          "6/C15"),
  "C16": ("coverage-guided fuzzing (libFuzzer, clang ASan+UBSan) plus deterministic replay of seeds, seeded structural mutants and the accumulated corpus through the gcc ASan+UBSan+hardened-STL build, outcome classifier (returned / bpp::Exception / foreign exception / abort / hang / allocation ceiling)",
-         "Ten entry-point groups (text utilities, tokenisers, keyval, options+variables+typed getters+wildcards, path helpers, table read/edit/write, distribution / interval / formula / vector descriptions); the first input bytes select the entry point and every option. Quick: all committed seeds, 37k seeded mutant cases (8 inputs each), the stored corpus, and 60k libFuzzer executions per group; thorough: 1.4M mutant cases and 9M executions per group. Any outcome other than return or bpp::Exception is a violation; time-outs and RSS/allocation ceilings stand for non-termination/unbounded allocation.",
+         "Ten entry-point groups (text utilities, tokenisers, keyval, options+variables+typed getters+wildcards, path helpers, table read/edit/write, distribution / interval / formula / vector descriptions); the first input bytes select the entry point and every option. Quick: all committed seeds, 37k seeded mutant cases (8 inputs each), the stored corpus, and 60k libFuzzer executions per group; thorough: 0.75M mutant cases and 3M executions per group. Any outcome other than return or bpp::Exception is a violation; time-outs and RSS/allocation ceilings stand for non-termination/unbounded allocation.",
          "6/C16"),
  "C01": ("shadow-model monitor of Parameter/ParameterList/owner histories + enumerated interval algebra + guarded audit hook inside Parameter (every state change of every parameter, also library-internal ones); " + SAN,
          "Interval algebra enumerated over a bound grid (finite, equal, infinite bounds x 4 open/closed combinations x test values of every order type incl. nextafter neighbours): isCorrect/includes/intersection/isEmpty/limits/readDescription against a 4-line model; random histories of construct/copy/assign/setValue/setConstraint/removeConstraint/list-level/owner-level updates with raise-leaves-state-unchanged; AutoParameter never raises and lands on the nearest accepted value; an 'internal' group drives distributions, simplexes, HMM matrices, reparametrisation wrappers and optimisers with the audit hook installed.",
